@@ -8,6 +8,9 @@
 SHADOW = {"p": 0.0, "rng": None, "found": [], "n": 0}
 import os as _os
 CRLF_PATH = [_os.environ.get("VF_SHADOW_CRLF", "1") == "1"]
+BYSTANDER = [_os.environ.get("VF_SHADOW_BYSTANDER", "1") == "1"]
+BYSTANDER_DDL = ("CREATE EXTERNAL TABLE \"By\".[stander] (`a` string, b MAP<STRING, INT>)\nROW FORMAT SERDE 'org.apache.hadoop.hive.serde2.RegexSerDe'\n"
+                 "WITH SERDEPROPERTIES (\n  \"input.regex\" = \"(x+)(y+)\"\n)\nSTORED AS TEXTFILE;\nCREATE SEQUENCE by_seq START WITH 3 CACHE 7;\nALTER TABLE \"By\".[stander] ADD c int CHECK (c > 0);\n")
 
 
 def parse(ddl, ctor=None, **run_kw):
@@ -51,6 +54,19 @@ def _shadow(p, ddl, ctor, run_kw, first):
         sh["crlf_n"] = sh.get("crlf_n", 0) + 1
         if cr != ("ok", keep) and len(sh["found"]) < 20:
             sh["found"].append({"path": "the same text with CRLF line ends", "ddl": ddl, "ctor": ctor or {}, "run_kw": run_kw, "observed": cr, "first_call": keep})
+    if BYSTANDER[0]:
+        # (d) a fresh object for the same text; between its construction and its run() ANOTHER object is built for another text with the opposite
+        #     naming option (never run): the first object must still return what the plain call returned
+        try:
+            from simple_ddl_parser import DDLParser
+            p2 = DDLParser(ddl, **(ctor or {}))
+            DDLParser(BYSTANDER_DDL, normalize_names=not (ctor or {}).get("normalize_names", False))
+            by = ("ok", p2.run(**run_kw))
+        except Exception as e:
+            by = ("exc", type(e).__name__, str(e)[:200])
+        sh["bystander_n"] = sh.get("bystander_n", 0) + 1
+        if by != ("ok", keep) and len(sh["found"]) < 20 and not ({"dump", "dump_path"} & set(run_kw)):
+            sh["found"].append({"path": "fresh object with another object constructed before its run()", "ddl": ddl, "ctor": ctor or {}, "run_kw": run_kw, "observed": by, "first_call": keep})
     if "\r" not in ddl and not ({"file_path", "dump", "dump_path"} & set(run_kw)):
         vf = parse_via_file(ddl, ctor, **run_kw)
         if vf != ("ok", keep) and len(sh["found"]) < 20:
